@@ -66,7 +66,7 @@ class Workspace:
             for h in fixit_tus or ('tulz/observer/Subject.h', 'tulz/observer/Observable.h', 'tulz/observer/routing/ConcurrentSubjectRouter.h'):
                 f.write('#include <%s>\n' % h)
         for _ in range(3):
-            r = subprocess.run([CLANG, '-std=c++20', '-fsyntax-only', '-Xclang', '-fixit', '-nostdinc++', '-isystem', os.path.join(VERIF, 'stl')] + GXX_INC +
+            r = subprocess.run([CLANG, '-std=c++20', '-fsyntax-only', '-Xclang', '-fixit', '-Xclang', '-fix-what-you-can', '-nostdinc++', '-isystem', os.path.join(VERIF, 'stl')] + GXX_INC +
                                ['-I', os.path.join(dst, 'include'), '-I', os.path.join(VERIF, 'rt'), '-Wno-everything', '-DVF_MODEL=1', '-D__linux__=1', '-fno-exceptions',
                                 '-include', os.path.join(VERIF, 'stl', 'vf_prelude.h'), tu], capture_output=True, text=True)
             if 'error' not in r.stderr:
@@ -267,7 +267,14 @@ def run_cbmc(cfiles, name='', defines=(), unwind=8, unwindset=(), timeout=600, m
         elif st not in ('SUCCESS',):
             # UNKNOWN: CBMC does not decide properties dominated by a failed fatal property (pointer checks)
             res.undecided.append((r.get('property'), d + ' [status %s]' % st))
-    if unwind_fail:
+    real = [f for f in res.failed if 'unwinding assertion' not in f[1] and 'recursion unwinding' not in f[1]]
+    if unwind_fail and real:
+        # counterexamples found within the unwinding bound are genuine (paths beyond the bound are cut, not invented);
+        # the exploration is incomplete, which matters only for a PASS verdict
+        res.unwind_names = [f[1] + ' ' + str(f[0]) for f in res.failed if f not in real]
+        res.failed = real
+        res.status = 'FAIL'
+    elif unwind_fail:
         res.status = 'UNWIND'
     elif res.failed:
         res.status = 'FAIL'
